@@ -151,7 +151,7 @@ def unit_of(ev, d):
 
 
 def model_lines(ev, timestep=0.25, integrator="euler", disable=(), enable=(), extra_lines=(), joint_extra=None,
-                body_extra=None, option_extra=""):
+                body_extra=None, option_extra="", world_site=False):
     """mkmodel.h description of the published model"""
     g = ev["glob"]
     dis = 0
@@ -164,6 +164,9 @@ def model_lines(ev, timestep=0.25, integrator="euler", disable=(), enable=(), ex
         num(timestep), csv(g["g"]), INTEGRATOR[integrator], dis, en) + ((" " + option_extra) if option_extra else ""),
          "compiler degree=0 fusestatic=0 autolimits=1 boundmass=0 boundinertia=0"]
     ten_hinge = False
+    sp = tuple(g.get("sp", (0, 0))) if ev.get("spL", 0) > 0 else (0, 0)        # the spatial tendon exists where its length is an integer
+    if world_site or 0 in sp and sp != (0, 0):
+        L.append("site body=world name=s0 pos=0,0,0")                          # WSite of the specification (site id 0: ids of body sites shift by one)
     for k, b in enumerate(ev["bodies"], start=1):
         L.append("body name=b%d parent=%s pos=%s quat=%s mass=%s ipos=%s inertia=%s explicitinertial=1 gravcomp=%s%s" % (
             k, "world" if b["par"] == 0 else "b%d" % b["par"], csv(b["pos"]), csv(quat_of(b["rot"])), num(b["mass"]),
@@ -188,6 +191,12 @@ def model_lines(ev, timestep=0.25, integrator="euler", disable=(), enable=(), ex
         for k, b in enumerate(ev["bodies"], start=1):
             if b.get("tc", 0) != 0:
                 L.append("wrapjoint tendon=t joint=j%d coef=%s" % (k, num(b["tc"])))
+            elif g.get("tz") and b["jt"] != "none":
+                L.append("wrapjoint tendon=t joint=j%d coef=0" % k)          # wrapped with coefficient 0: an exact zero in ten_J
+    if sp != (0, 0):
+        L.append("tendon name=ts armature=%s" % num(g["sarm"]))
+        L.append("wrapsite tendon=ts site=s%d" % sp[0])
+        L.append("wrapsite tendon=ts site=s%d" % sp[1])
     L += list(extra_lines)
     return L
 
